@@ -5,13 +5,13 @@ import json, os, glob, shutil, sys, re
 ROOT = os.path.dirname(os.path.dirname(os.path.abspath(__file__)))
 rows = []
 if "--table-only" not in sys.argv:
-    for md in sorted(glob.glob("/tmp/wt-C*/MUTANT*") + glob.glob("/tmp/w2-C*/MUTANT*") + glob.glob("/tmp/w3-C*/MUTANT*") + glob.glob("/tmp/w4-C*/MUTANT*") + glob.glob("/tmp/w5-C*/MUTANT*") + glob.glob("/tmp/w6-C*/MUTANT*") + glob.glob("/tmp/w7-C*/MUTANT*") + glob.glob("/tmp/w8-C*/MUTANT*") + glob.glob("/tmp/w9-C*/MUTANT*") + glob.glob("/tmp/w10-C*/MUTANT*") + glob.glob("/tmp/w11-C*/MUTANT*")):
+    for md in sorted(glob.glob("/tmp/wt-C*/MUTANT*") + glob.glob("/tmp/w2-C*/MUTANT*") + glob.glob("/tmp/w3-C*/MUTANT*") + glob.glob("/tmp/w4-C*/MUTANT*") + glob.glob("/tmp/w5-C*/MUTANT*") + glob.glob("/tmp/w6-C*/MUTANT*") + glob.glob("/tmp/w7-C*/MUTANT*") + glob.glob("/tmp/w8-C*/MUTANT*") + glob.glob("/tmp/w9-C*/MUTANT*") + glob.glob("/tmp/w10-C*/MUTANT*") + glob.glob("/tmp/w11-C*/MUTANT*") + glob.glob("/tmp/w12-C*/MUTANT*")):
         ev_p = os.path.join(md, "eval.json")
         if not os.path.exists(ev_p): continue
         ev = json.load(open(ev_p))
         prop = ev["property"]
         n = re.sub(r"\D", "", os.path.basename(md)) or "1"
-        rnd = "r2-" if "/w2-" in md else ("r3-" if "/w3-" in md else ("r4-" if "/w4-" in md else ("r5-" if "/w5-" in md else ("r6-" if "/w6-" in md else ("r7-" if "/w7-" in md else ("r8-" if "/w8-" in md else ("r9-" if "/w9-" in md else ("r10-" if "/w10-" in md else ("r11-" if "/w11-" in md else "")))))))))
+        rnd = "r2-" if "/w2-" in md else ("r3-" if "/w3-" in md else ("r4-" if "/w4-" in md else ("r5-" if "/w5-" in md else ("r6-" if "/w6-" in md else ("r7-" if "/w7-" in md else ("r8-" if "/w8-" in md else ("r9-" if "/w9-" in md else ("r10-" if "/w10-" in md else ("r11-" if "/w11-" in md else ("r12-" if "/w12-" in md else ""))))))))))
         dst = os.path.join(ROOT, "seeded", f"{prop}-{rnd}{n}")
         confirmed = ev.get("compiles") and ev.get("suite_unchanged") and ev.get("demo_fails_with_change") and ev.get("demo_passes_without_change")
         if not confirmed:
@@ -24,7 +24,7 @@ if "--table-only" not in sys.argv:
         meta = json.load(open(os.path.join(md, "meta.json"))) if os.path.exists(os.path.join(md, "meta.json")) else {}
         meta.setdefault("property", prop)
         meta["breaks_property"] = prop
-        meta["origin"] = "fresh sub-agent given only the property text and a scratch worktree of /repo" + (" (round 2: additionally told which round-1 ideas to stay away from)" if rnd == "r2-" else (" (round 3: asked for a *quiet* change that a straight RUN cannot show, and told which earlier ideas are taken)" if rnd == "r3-" else (" (round 4: as round 3, with a second list of taken ideas)" if rnd == "r4-" else (" (round 5: quiet changes for the remaining properties, third list of taken ideas)" if rnd == "r5-" else (" (round 6: all 15 properties, asked for a forgotten clause or corner of the quantifier, full list of taken ideas)" if rnd == "r6-" else (" (round 7: all 15 properties, asked for interactions of two features, boundary values, state surviving between activities, drifting duplicate code paths)" if rnd == "r7-" else (" (round 8: all 15 properties, asked for what is reported rather than computed, N-th repetition effects, asymmetric pairs, clean-up paths)" if rnd == "r8-" else (" (round 9: all 15 properties, asked for the indirect route through helper code, unusual values, ordering, resource handling over long sessions)" if rnd == "r9-" else (" (round 10: all 15 properties, asked for the most realistic next pull request that breaks the property by accident; evaluated against the final simulator, no extensions made afterwards)" if rnd == "r10-" else (" (round 11: all 15 properties, asked for changes that need a specific history or timing: two cooperating sites, a host action at a particular suspended state, an I/O-edge fault, a boundary value in combination; first evaluated against the simulator as extended after round 10)" if rnd == "r11-" else ""))))))))))
+        meta["origin"] = "fresh sub-agent given only the property text and a scratch worktree of /repo" + (" (round 2: additionally told which round-1 ideas to stay away from)" if rnd == "r2-" else (" (round 3: asked for a *quiet* change that a straight RUN cannot show, and told which earlier ideas are taken)" if rnd == "r3-" else (" (round 4: as round 3, with a second list of taken ideas)" if rnd == "r4-" else (" (round 5: quiet changes for the remaining properties, third list of taken ideas)" if rnd == "r5-" else (" (round 6: all 15 properties, asked for a forgotten clause or corner of the quantifier, full list of taken ideas)" if rnd == "r6-" else (" (round 7: all 15 properties, asked for interactions of two features, boundary values, state surviving between activities, drifting duplicate code paths)" if rnd == "r7-" else (" (round 8: all 15 properties, asked for what is reported rather than computed, N-th repetition effects, asymmetric pairs, clean-up paths)" if rnd == "r8-" else (" (round 9: all 15 properties, asked for the indirect route through helper code, unusual values, ordering, resource handling over long sessions)" if rnd == "r9-" else (" (round 10: all 15 properties, asked for the most realistic next pull request that breaks the property by accident; evaluated against the final simulator, no extensions made afterwards)" if rnd == "r10-" else (" (round 11: all 15 properties, asked for changes that need a specific history or timing: two cooperating sites, a host action at a particular suspended state, an I/O-edge fault, a boundary value in combination; first evaluated against the simulator as extended after round 10)" if rnd == "r11-" else (" (round 12: eight properties, same direction as round 11, evaluated against the simulator as extended after round 11)" if rnd == "r12-" else "")))))))))))
         meta["confirmed_by_us"] = {
             "in": "scratch worktree " + os.path.dirname(md),
             "ran": ["cargo test --workspace --no-fail-fast --offline (baseline vs with change: identical)",
